@@ -32,6 +32,7 @@ type Target interface {
 	dependencies() []string
 	generates() []string
 	info() targetInfo
+	setInfo(info targetInfo)
 	upToDate() (bool, string, diff.ValueDiff, error)
 	evaluate() (data string, changed bool, err error)
 }
@@ -147,6 +148,7 @@ func (t *runTarget) Evaluate(engine runner.Engine) error {
 			proj.events.TargetFailed(label, err)
 			return err
 		}
+		t.target.setInfo(pending)
 	}
 
 	proj.events.TargetEvaluating(label, reason, diff)
@@ -166,12 +168,15 @@ func (t *runTarget) Evaluate(engine runner.Engine) error {
 	if err != nil {
 		proj.events.TargetFailed(label, err)
 
-		// If the target fails, record that it must be re-run on the next build.
-		proj.saveTargetInfo(label, targetInfo{
+		// If the target fails, record that it must be re-run on the next build - also in memory:
+		// the next build may be another run of this loaded project (the REPL's run()).
+		failed := targetInfo{
 			Doc:          t.target.Doc(),
 			Dependencies: depData,
 			Rerun:        true,
-		})
+		}
+		proj.saveTargetInfo(label, failed)
+		t.target.setInfo(failed)
 		verifhook.Crash("eval.afterFailSave", label.String())
 		return err
 	}
@@ -182,15 +187,17 @@ func (t *runTarget) Evaluate(engine runner.Engine) error {
 		t.data = data
 	}
 	t.stamp = makeStamp(t.data, depData)
-	err = proj.saveTargetInfo(label, targetInfo{
+	succeeded := targetInfo{
 		Doc:          t.target.Doc(),
 		Dependencies: depData,
 		Data:         t.data,
-	})
+	}
+	err = proj.saveTargetInfo(label, succeeded)
 	if err != nil {
 		proj.events.TargetFailed(label, err)
 		return err
 	}
+	t.target.setInfo(succeeded)
 	verifhook.Crash("eval.afterSave", label.String())
 	proj.events.TargetSucceeded(label, changed)
 	return nil
